@@ -154,6 +154,11 @@ func (r *Report) finish(verifDir, outDir string, seed int, explanation string) i
 		}
 	}
 	sort.Strings(floorFail)
+	// a rule that matches fewer constructs than were confirmed by hand can no longer vouch for the
+	// property: reported as an (undecided) violation naming the rule
+	for _, ff := range floorFail {
+		r.items = append(r.items, Item{Rule: strings.SplitN(ff, ":", 2)[0], Construct: "rule-instance-floor", What: "the rule no longer finds the constructs it was confirmed on (" + ff + "): the code it anchors in changed shape or disappeared", Pos: "-", Undecided: true, Signature: "floor", Nontrivial: true})
+	}
 
 	nviol := 0
 	nknown := 0
@@ -216,7 +221,6 @@ func (r *Report) finish(verifDir, outDir string, seed int, explanation string) i
 	}
 	for _, ff := range floorFail {
 		fmt.Printf("mbcheck: %s: rule instance floor not met: %s\n", r.Prop, ff)
-		exit = 2
 	}
 	for name, fired := range r.controls {
 		if !fired {
